@@ -493,6 +493,10 @@ impl TreeSink for RcDom {
 
         remove_from_parent(&child);
 
+        // If the node was a child of the same parent, removing it may have shifted the sibling.
+        let (parent, i) = get_parent_and_index(sibling)
+            .expect("append_before_sibling called on node without parent");
+
         child.parent.set(Some(Rc::downgrade(&parent)));
         parent.children.borrow_mut().insert(i, child);
     }
